@@ -4,8 +4,10 @@ use crate::rng::Rng;
 pub fn gen_case(profile: &str, rng: &mut Rng, out: &mut String) -> bool {
     match profile {
         "C01" => super::c01::gen_case(rng, out, false),
+        "C02" => super::c02::gen_case(rng, out, false),
         "C04" => super::c04::gen_case(rng, out),
         "C07" => super::c01::gen_case(rng, out, true),
+        "C08" => super::c02::gen_case(rng, out, true),
         "C09" => super::c09::gen_case(rng, out),
         "C15" => super::c15::gen_case(rng, out),
         _ => return false,
